@@ -15,7 +15,8 @@ RULE = ("case = one history on a fresh chain through BeginBlock/DeliverTx/EndBlo
         "MsgCreateFunToken (coin / erc20, incl. duplicates and nonexistent contracts), MsgConvertCoinToEvm (both births), "
         "precompile sendToBank / sendToEvm / bankMsgSend (direct from an EOA or through a forwarder contract: plain, "
         "revert-at-top, reverting sub-frame, swallowed failure, once-then-reverted; hex / bech32 / unparsable recipient; "
-        "low gas), ERC20 transfer / burn (incl. donations to the module); amounts small, zero, above balance, huge, negative. "
+        "low gas), ERC20 transfer / burn (incl. donations to the module), pairs of ops in ONE transaction (two forwarder calls in "
+        "one EVM tx, two messages in one Cosmos tx: both or nothing); amounts small, zero, above balance, huge, negative. "
         "Observed after EVERY tx: accepted?, registry, totalSupply, balanceOf(module), bank supply, module escrow per mapping, "
         "actor balances of the touched token/denom. non-trivial = at least two accepted conversions and one of: an accepted "
         "conversion on a fee-on-transfer token, an accepted tx with a reverting/swallowing sub-frame around a conversion, "
@@ -31,7 +32,7 @@ ASSUMPTIONS = [
     "implementation by the correspondence run (sub-frame reverts, top-level reverts, swallowed failures, out-of-gas)",
     "the gas coin unibi is not a mapped denom in the model (fees are not modelled)",
 ]
-TRUSTED = ["hand-assembled forwarder contract (135 bytes, listing in coq/C06/README.md)"]
+TRUSTED = ["hand-assembled forwarder contract (215 bytes) and returns-false ERC20 (182 bytes), listings in coq/C06/README.md"]
 HARNESS_TIMEOUT = {"quick": 600, "thorough": 7200}
 
 CONV = ("convert", "send_to_bank", "send_to_evm")
@@ -68,21 +69,38 @@ def _amt(op):
     return _z(x)
 
 
+def _flat(op):
+    return (op.get("ops") or []) if op["k"] == "seq" else [op]
+
+
 def _ntok_before(rec, i):
     """number of ERC20 contracts known before step i (token ids are assigned in deployment order)"""
     n = 0
     for op, ob in zip(rec["input"][:i], rec["obs"][:i]):
-        if ob["ok"] and op["k"] == "deploy":
-            n += 1
-        elif ob["ok"] and op["k"] == "create_coin":
-            n += 1
+        for sub in _flat(op):
+            if ob["ok"] and sub["k"] in ("deploy", "create_coin"):
+                n += 1
     return n
 
 
 def _op(rec, i):
-    op, ob = rec["input"][i], rec["obs"][i]
+    return _op_of(rec["input"][i], rec["obs"][i]["ok"], _ntok_before(rec, i))
+
+
+def _op_of(op, tx_ok, ntok):
     k = op["k"]
     a, to, t = op.get("a", 0), op.get("to", 0), op.get("t", 0)
+    if k == "seq":
+        subs = op.get("ops") or []
+        if len(subs) != 2:
+            return "Framed FBadArgs (SetMeta (DCoin 0%nat))"
+        cosmos = all(x["k"] in ("create_coin", "create_erc20", "convert") for x in subs)
+        evm = all(x["k"] in ("send_to_bank", "send_to_evm", "bank_msg_send", "erc20_transfer", "erc20_burn") for x in subs)
+        okc = cosmos and subs[0].get("a") == subs[1].get("a") and subs[0].get("a") in (3, 4)
+        oke = evm and all(x.get("a") == 5 for x in subs)
+        if not (okc or oke):
+            return "Framed FBadArgs (SetMeta (DCoin 0%nat))"
+        return "Seq (%s) (%s)" % (_op_of(subs[0], True, ntok), _op_of(subs[1], True, ntok))
     if k == "fund":
         base = "Fund %s %s %s" % (_n(a), _den(op.get("d")), _amt(op))
     elif k == "meta":
@@ -94,7 +112,7 @@ def _op(rec, i):
         else:
             beh, sup = KINDS[kind]
             if kind == "fee":
-                beh = beh % _ntok_before(rec, i)
+                beh = beh % ntok
             base = "Deploy %s %s %s" % (_n(a), beh, _z(sup))
     elif k == "create_coin":
         base = "CreateFromCoin %s" % _den(op.get("d"))
@@ -119,9 +137,11 @@ def _op(rec, i):
         base = "Framed %s (%s)" % (FRAMES.get(fr, "FBadArgs"), base)
     if op.get("bad_to") and k in ("send_to_bank", "send_to_evm", "bank_msg_send"):
         # an unparsable recipient makes the precompile call fail; what the tx does with that failure is the frame's business
-        inner = "Framed FBadArgs (%s)" % base if not fr else "Framed %s (Framed FBadArgs (SetMeta (DCoin 0%%nat)))" % FRAMES.get(fr, "FBadArgs")
-        base = inner
-    if op.get("gas") and not ob["ok"]:
+        if not fr:
+            base = "Framed FBadArgs (%s)" % base
+        else:
+            base = "Framed %s (Framed FBadArgs (SetMeta (DCoin 0%%nat)))" % FRAMES.get(fr, "FBadArgs")
+    if op.get("gas") and not tx_ok:
         base = "Framed FOog (%s)" % base
     return base
 
@@ -148,10 +168,11 @@ def to_coq_case(rec):
 def _token_kinds(rec):
     kinds = []
     for op, ob in zip(rec["input"], rec["obs"]):
-        if ob["ok"] and op["k"] == "deploy":
-            kinds.append(op.get("kind"))
-        elif ob["ok"] and op["k"] == "create_coin":
-            kinds.append("minter")
+        for sub in _flat(op):
+            if ob["ok"] and sub["k"] == "deploy":
+                kinds.append(sub.get("kind"))
+            elif ob["ok"] and sub["k"] == "create_coin":
+                kinds.append("minter")
     return kinds
 
 
@@ -169,14 +190,15 @@ def nontrivial(rec):
     conv = 0
     fee = frame = False
     dirs = {}
-    for op, ob in zip(rec["input"], rec["obs"]):
+    for top, ob in zip(rec["input"], rec["obs"]):
+      for op in _flat(top):
         if op["k"] not in CONV or not ob["ok"]:
             continue
         m = _mapping_of(ob, op)
         if m is None:
             continue
         fr = op.get("frame") or ""
-        if fr in ("inner_revert", "swallow", "once_then_reverted"):
+        if fr in ("inner_revert", "swallow", "once_then_reverted") or top["k"] == "seq":
             frame = True
             if fr == "inner_revert":
                 continue
@@ -195,6 +217,8 @@ def classify(rec):
         tag = op["k"]
         if op.get("frame"):
             tag += "/" + op["frame"]
+        if op["k"] == "seq":
+            tag += "/" + "+".join(x["k"] for x in _flat(op))
         ks.append("op:" + tag)
         ks.append("%s:%s" % (op["k"], "accepted" if ob["ok"] else "rejected"))
         if op.get("bad_to"):
@@ -257,7 +281,8 @@ MANIFEST = {
                  "ledger per contract with a transfer-behaviour parameter (standard, fee-on-transfer with any fee function "
                  "and sink, returns-false, too-heavy-for-the-gas-cap), CreateFunToken from coin / from ERC20, "
                  "ConvertCoinToEvm (both births), precompile sendToBank / sendToEvm / bankMsgSend, user transfers, "
-                 "donations and burns, each optionally inside reverting / swallowing frames: C06_backing_invariant (after "
+                 "donations and burns, each optionally inside reverting / swallowing frames or paired with another op in one "
+                 "transaction: C06_backing_invariant (after "
                  "every transaction: coin-born totalSupply <= module escrow, ERC20-born bank supply <= module ERC20 "
                  "balance, each ERC20 and denom in at most one mapping), C06_exact_backing (equality when nobody burns or "
                  "donates directly and no token pays fees to the module; fee-on-transfer allowed), C06_unique_mapping + "
